@@ -28,7 +28,18 @@ def histogram(line):
     return keys
 
 
+def _e2e_stat_obligations():
+    # the statistics-side composition theorems of coq/e2e (E2EStat.v: counts -> log-odds -> both p-value methods
+    # bracket one exact tail; thresholds from p-values used for scanning) count as obligations of this property
+    # in the thorough tier (wired by the e2e builder, round 3; see props/e2e.py STAT_EXTRA)
+    from props import e2e
+    return e2e.obligations_stat()
+
+
 SPEC = dict(
+    extra_obligations={"thorough": _e2e_stat_obligations},
+    extra_obligations_name="coq/e2e/E2EStat.v: composition of C09, C11, C12/C13, C10, C14 and the scanning pipeline of E2E.v",
+    extra_obligations_cmd="make -C coq/e2e (and imported groups) + Print Assumptions audit of LME2E.E2EStat",
     id="C11",
     group="dist",
     props_file="C11.v",
